@@ -39,7 +39,9 @@ Fixpoint flat_p (p : option akind) (c : content) (d axis : Z) {struct c} : res (
       match inner with
       | [] => Ok ([], rewrap fc)
       | _ =>
-          do s <- remap inner (map fst b); do e <- remap inner (map snd b);
+          (* empty lists may sit anywhere (also beyond the content): the C++ compacts first *)
+          let b' := map (fun ab : Z * Z => if fst ab =? snd ab then (0, 0) else ab) b in
+          do s <- remap inner (map fst b'); do e <- remap inner (map snd b');
           Ok ([], ListA I64 s e fc)
       end in
   let at_option (ix : list Z) (c' : content) (rewrap : content -> content) :=
